@@ -316,7 +316,28 @@ pub fn fuzz_text(r: &mut Rng) -> String {
         1 => {
             // very long token / line (up to ~100 KB)
             let len = *r.pick(&[1000usize, 5000, 20_000, 100_000]);
-            match r.below(9) {
+            match r.below(11) {
+                9 | 10 => {
+                    // names that are only too long once the origin is appended: each part is a valid name, the
+                    // sum crosses 255 octets (boundary: 193 for three 63-octet labels + root, then k + 1 more)
+                    let big = format!("{}.{}.{}.", "a".repeat(63), "b".repeat(63), "c".repeat(63));
+                    let k = *r.pick(&[1usize, 60, 61, 62, 63]);
+                    let rel = "r".repeat(k);
+                    match r.below(5) {
+                        0 => s.push_str(&format!("$ORIGIN {big}\n{rel} 300 IN A 1.2.3.4\n")),
+                        1 => s.push_str(&format!("$ORIGIN {big}\nx 300 IN NS {rel}\n")),
+                        2 => s.push_str(&format!("$ORIGIN {big}\n$ORIGIN {rel}\n@ 300 IN A 1.2.3.4\n")),
+                        3 => s.push_str(&format!("$ORIGIN {big}\n*.{rel} 300 IN TXT t\n")),
+                        _ => {
+                            // an origin grown label by label with relative $ORIGIN lines
+                            s.push_str("$ORIGIN e.\n");
+                            for i in 0..r.range(3, 6) {
+                                s.push_str(&format!("$ORIGIN {}\n", ((b'a' + i as u8) as char).to_string().repeat(60)));
+                            }
+                            s.push_str("@ 300 IN A 1.2.3.4\nw 300 IN MX 1 m\n");
+                        }
+                    }
+                }
                 5 | 6 => {
                     // a long run of entries that produce nothing (blank, blanks only, comment only),
                     // outside parentheses, then optionally a record / garbage
@@ -1394,6 +1415,25 @@ pub fn run_rendered(r: &mut Rng, n: usize, out: &mut Out) {
             let v2 = gen_filevar(r);
             emit_rendered(&ds, &v2, out);
             done += 1;
+        }
+        // the same text with every trailing comment glued onto the token before it (`1.2.3.4;web`): a `;`
+        // starts a comment wherever it stands outside quotes, so the meaning must not change
+        {
+            let mut glued = String::new();
+            let mut any = false;
+            for (i, (text, is_tok)) in p.iter().enumerate() {
+                if !*is_tok && text.starts_with(" ;") && i > 0 && p[i - 1].1 {
+                    glued.push_str(&text[1..]);
+                    any = true;
+                } else {
+                    glued.push_str(text);
+                }
+            }
+            if any {
+                let orig = pieces_text(&p);
+                out.case(&["ztext.glued", &c::hex(orig.as_bytes()), &c::hex(glued.as_bytes())], &parse_text(&parse(&glued)));
+                done += 1;
+            }
         }
         // one AST-level fault
         let fds = ast_fault(r, &ds);
